@@ -243,6 +243,9 @@ type UpAction struct {
 	DelayUs int64  `json:"delay_us"`
 	Arg     int    `json:"arg,omitempty"`
 	Raw     []byte `json:"raw,omitempty"`
+	// Hdr != 0: the reply's header is odd but decodable: opcode = Hdr&15,
+	// bit 4 clears RA, bit 5 flips RD, bit 6 clears QR.
+	Hdr int `json:"hdr,omitempty"`
 }
 
 type NetSpec struct {
